@@ -67,11 +67,11 @@ def py_slice_terms(a, b, n):
 
 def sym_max_read(e, sr):
     """max_read given in quarter samples: returns (SymRat duration, expected visible sample count M = round-half-even(Mq/4), Mq)"""
-    Mq = I("Mq")
-    e.assume(Mq >= 0)
+    Mq = I("Mq")          # may be negative: nothing is visible then
     a, b, c, d = e.fresh("a"), e.fresh("b"), e.fresh("c"), e.fresh("d")
     e.add(z3.And(Mq == 4 * a + b, b >= 0, b < 4, a == 2 * c + d, d >= 0, d < 2))
     M = z3.If(b <= 1, a, z3.If(b == 3, a + 1, z3.If(d == 0, a, a + 1)))
+    M = z3.If(M < 0, 0, M)
     return SymRat(Mq, 4 * sr), M, Mq
 
 
@@ -82,4 +82,4 @@ def max_read_concrete(Mq, sr):
     M = round(fractions.Fraction(Mq, 4))
     if round(mr * sr) != M or round(fractions.Fraction(mr) * sr) != M:
         return None
-    return mr, M
+    return mr, max(M, 0)
